@@ -10,7 +10,8 @@ ROUTING_NOTE = ("Trusted: TLC and the Json community module, Go's net/http reque
 
 CHECKS = {
  "C01": ("TLC exhaustive small-scope model checking of the routing specification (Layer A theorems, Layer B CurlyImpl inside Layer A) "
-         "+ replay of every explored case on the real routers + TLC trace validation of real-code observations (RoutingTrace, clause C01.*)",
+         "+ replay of every explored case on the real routers (Dispatch, ServeHTTP, 8 goroutines at once, nested dispatch from inside a handler) "
+         "+ TLC trace validation of real-code observations (RoutingTrace, clause C01.*)",
          "Every (table, request) of the bounded pools is enumerated by TLC and replayed on real containers under both routers and "
          "both entry points; every observation of the real code - also from seeded random tables with near-miss requests - is judged "
          "by the property-level specification: a route function may only run when Admits holds (method, path May-match, Consumes, "
@@ -29,7 +30,9 @@ CHECKS = {
          "TLC on the logged parameters of every invoked route of the exhaustive pools and of random tables.", "6 C04", ROUTING_NOTE),
  "C14": ("same pipeline with every request sent as p and p/ to one container; clause C14.pair; trailing-slash invariance is also a theorem of Layer A checked by TLC",
          "TLC proves the invariance on the specification for every enumerated table/request and judges every real pair.", "6 C14", ROUTING_NOTE),
- "C17": ("TLC trace validation of per-method probe sets against the Allow headers of 405 responses and of the OPTIONS filter (RoutingTrace, clause C17.*), cases from MC_Routing 'agree' pools and random common-fragment tables",
+ "C17": ("TLC model checking of OptionsTruthful (Layer B of computeAllowedMethods = methods Layer A calls routable, on every table and URL of the 'agree' pools; the legacy "
+         "walk over all WebServices refuted) + TLC trace validation of per-method probe sets against the Allow headers of 405 responses (with and without an entity) and of the "
+         "OPTIONS filter, before and after a route is added (RoutingTrace, clause C17.*), cases from MC_Routing 'agree' pools and random common-fragment tables",
          "The property relates three computations of the real code; the harness probes every method for every URL on a plain and on "
          "a filtered twin container and the trace specification evaluates the set equalities and the twin equality.", "6 C17", ROUTING_NOTE),
  "C18": ("same pipeline on twin containers differing only in Container.Router; clause C18.agree (N-version) plus each observation judged by Layer A",
@@ -90,7 +93,8 @@ CHECKS = {
          "run on the real Container under the Go race detector + TLC trace validation (ConcTrace): every response must be the answer of a "
          "registration state that existed during the request (window rule, incl. isolation)",
          "Data-race freedom is decided on the lock-discipline model and observed on the real code by the race detector on exactly the "
-         "pairs the model shows to be critical; linearisability of responses is checked against fresh containers for every state of the window.",
+         "pairs the model shows to be critical; linearisability of responses is checked against fresh containers for every state of the window; "
+         "rounds with two mutators on disjoint services check that nothing is lost (C12.final) and that a panicking condition leaves no lock behind.",
          "6 C12", "Trusted: TLC, the Go race detector (dynamic), one mutator goroutine; a 30 s watchdog defines deadlock."),
  "C13": ("TLC exhaustive model checking of MC_Pool (N processes x Rounds of Acquire / Close / nil / second Close on the bounded channel cache "
          "for several (N, K) incl. K = 0, and on the sync.Pool bag; invariants Exclusive / NeverBlocks / CacheBounded, liveness Completion under "
